@@ -426,6 +426,13 @@ def render_py(vinfo, raw):
     return float(fractions.Fraction(*x)) if tag == "q" else float(x)
 
 
+def same_f32(a, b):
+    """a float is the engine's float32 value when, cast to float32, it equals it: the same float32 (so 0.0 and
+    -0.0, which are equal, both stand for a zero), or NaN for NaN"""
+    x, y = numpy.float32(a), numpy.float32(b)
+    return bool(x == y) or bool(x != x and y != y)
+
+
 def same(a, b):
     """JSON equality that tells bool from int and int from float"""
     if isinstance(a, dict) and isinstance(b, dict):
@@ -433,8 +440,7 @@ def same(a, b):
     if isinstance(a, list) and isinstance(b, list):
         return len(a) == len(b) and all(same(x, y) for x, y in zip(a, b))
     if isinstance(a, float) and isinstance(b, float):
-        # a float is the engine's float32 value when, cast to float32, it is that value bit for bit
-        return numpy.float32(a).tobytes() == numpy.float32(b).tobytes()
+        return same_f32(a, b)
     return type(a) is type(b) and a == b
 
 
@@ -1647,7 +1653,7 @@ def oracle_api(case, obs):
                     if isinstance(want_leaf, float):
                         # the trace gives the float32 value itself (tolist), /calculate its shortest text: equal as float32
                         ok = isinstance(got, (fractions.Fraction, float)) and \
-                            numpy.float32(float(got)).tobytes() == numpy.float32(want_leaf).tobytes()
+                            same_f32(float(got), want_leaf)
                     else:
                         ok = same(got, want_leaf)
                     if not ok:
